@@ -17,6 +17,7 @@ import (
 	discovery_v1 "k8s.io/api/discovery/v1"
 	networking "k8s.io/api/networking/v1"
 	"k8s.io/client-go/tools/cache"
+	"k8s.io/client-go/tools/record"
 
 	"github.com/nginx/kubernetes-ingress/internal/configs"
 	"github.com/nginx/kubernetes-ingress/internal/k8s/appprotectdos"
@@ -102,6 +103,10 @@ func NewVerifC06(o VerifC06Opts) *VerifC06 {
 		enableOIDC:                o.EnableOIDC,
 		internalRoutesEnabled:     o.InternalRoutes,
 		dosConfiguration:          appprotectdos.NewConfiguration(false),
+		// syncPolicy (VerifC06 histories) records events and, unless a leader election says otherwise, writes
+		// statuses: a fake recorder and "leader election enabled, not the leader" keep it off the API server
+		recorder:               record.NewFakeRecorder(1 << 14),
+		isLeaderElectionEnabled: true,
 	}
 	lbc.configuration = NewConfiguration(
 		lbc.HasCorrectIngressClass,
@@ -264,5 +269,24 @@ func VerifC06Regexps() map[string]*regexp.Regexp {
 		"realm@k8s.realmFmtRegexp":                           realmFmtRegexp,
 		"jwt_token@k8s.validJWTTokenAnnotationValueRegex":    validJWTTokenAnnotationValueRegex,
 		"limit_req_key@k8s.limitReqKeyRegexp":                limitReqKeyRegexp,
+	}
+}
+
+// RemovePolicy deletes a Policy from the informer store WITHOUT telling the controller (the delete
+// event is coalesced with a later add of the same key, or lost in a watch gap).
+func (v *VerifC06) RemovePolicy(p *conf_v1.Policy) { _ = v.nsi.policyLister.Delete(p) }
+
+// SyncPolicy is the REAL syncPolicy for the key (validation, FindResourcesForPolicy, createExtendedResources ->
+// getPolicies, AddOrUpdateVirtualServers); events go to a fake recorder that is drained here.
+func (v *VerifC06) SyncPolicy(key string) {
+	v.lbc.syncPolicy(task{Kind: policy, Key: key})
+	if fr, ok := v.lbc.recorder.(*record.FakeRecorder); ok {
+		for {
+			select {
+			case <-fr.Events:
+			default:
+				return
+			}
+		}
 	}
 }
